@@ -77,6 +77,7 @@ def check_run(spec, r):
         elif e['ev'] == 'cancel' and e['before'] == 'ACTIVE' and e['after'] == 'CANCELED':
             can[e['ord']] = e
     aborted = r['error'] is not None
+    fill_minute_ts = {e['ord']: e.get('minute_ts') for e in r['trace'] if e['ev'] == 'execute' and e['before'] == 'ACTIVE'}
     last_started, seen_min = {}, {}
     for e in r['trace']:
         if e['ev'] in ('minute', 'chunk'):
@@ -122,6 +123,10 @@ def check_run(spec, r):
             if o['executed_at'] < o['created_at']:
                 vios.append((f'C02:sim={sim}:executed-before-created', f"order {o['ord']}"))
                 continue
+            mts = fill_minute_ts.get(o['ord'])
+            if mts is not None and o['executed_at'] != mts + MIN:
+                vios.append((f'C02:sim={sim}:fill-time-is-not-the-end-of-the-minute-being-matched',
+                             f"order {o['ord']} ({o['sym']}) executed_at {o['executed_at']} while the 1m candle being matched started at {mts} (expected {mts + MIN})"))
             if not (0 <= f < n):
                 vios.append((f'C02:sim={sim}:fill-minute-out-of-session', f"order {o['ord']} f={f}"))
                 continue
